@@ -47,9 +47,9 @@ Proof.
   destruct r, x as [x'|].
   - same_ro. same_ro. same_ro. apply (atomic_of_total same). total_tac.
   - same_ro. same_ro. destruct (child _ _ _); apply (atomic_of_total same); total_tac.
-  - same_ro. same_ro. apply (atomic_of_total same). total_tac.
+  - same_ro. same_ro. same_ro. same_ro. same_ro. apply (atomic_of_total same). total_tac.
   - apply (atomic_of_readonly same same_refl). readonly_tac.
-  - same_ro. same_ro. apply (atomic_of_total same). total_tac.
+  - same_ro. same_ro. same_ro. same_ro. same_ro. apply (atomic_of_total same). total_tac.
   - same_ro. same_ro.
     destruct (child _ _ _); [apply (atomic_of_total same); total_tac
                             | apply (atomic_of_readonly same same_refl); readonly_tac].
@@ -61,8 +61,16 @@ Qed.
 
 Lemma atomic_api_create_mtag ph n t pos now : atomic same (api_create_mtag ph n t pos now).
 Proof.
-  unfold api_create_mtag. same_ro. same_ro. same_ro. same_ro. same_ro. same_ro. same_ro.
+  unfold api_create_mtag. same_ro. same_ro. same_ro. same_ro. same_ro. same_ro. same_ro. same_ro. same_ro.
   apply atomic_create_tail; [apply atomic_entity_create_new | apply ro_entity_create_new | intros; total_tac].
+Qed.
+
+(* BaseTag.create_feature: the data array is tested before the feature group is made (a refused
+   call removes what it had started) *)
+Lemma atomic_api_create_feature th dh l now : atomic same (api_create_feature th dh l now).
+Proof.
+  unfold api_create_feature. same_ro. same_ro. same_ro. same_ro. same_ro. same_ro.
+  apply (atomic_of_total same). total_tac.
 Qed.
 
 (* ---- creators that create their (empty, unobservable) container group before the duplicate
